@@ -43,7 +43,7 @@ TReset ==
   /\ mine' = [a \in Apps |-> {}] /\ cur' = [a \in Apps |-> 0]
   /\ subs' = {} /\ nextId' = 1 /\ srvSubs' = {}
   /\ srvUp' = TRUE /\ srvSess' = TRUE /\ conn' = "up" /\ sess' = TRUE /\ errq' = "none"
-  /\ pausech' = 0 /\ resumech' = 0 /\ mux' = "none" /\ lpc' = "a.pause" /\ pubOut' = "none"
+  /\ pausech' = 0 /\ resumech' = 0 /\ mux' = "none" /\ lpc' = "a.pause" /\ pubOut' = "none" /\ pubSub' = 0
   /\ mpc' = "idle" /\ action' = "none" /\ activeSubs' = 0 /\ toRecreate' = {} /\ toRepublish' = {} /\ restored' = FALSE
   /\ ctxDone' = FALSE /\ dials' = 1 /\ dialsAtClose' = 0 /\ faults' = 0
   /\ seq' = 0 /\ pend' = {} /\ inflight' = {} /\ ackcnt' = [n \in 1..(MaxPub + 1) |-> 0] /\ datas' = {} /\ lost' = {}
